@@ -191,6 +191,13 @@ def run(ctx):
         wb, kb = ctx.body(waiter_fn), ctx.body(waker_fn)
         if not wb or not kb:
             return
+        # (the wait with its test, or the wake with its test, may have been moved into a private helper of the function)
+        def pick(b0, pats, fld):
+            for b1 in [b0] + [x for x in lib.family(F, b0.path) if x is not b0]:
+                if sites_on(b1, pats, fld):
+                    return b1
+            return b0
+        wb, kb = pick(wb, wait_pats, wait_field), pick(kb, wake_pats, wake_field)
         ws = sites_on(wb, wait_pats, wait_field)
         ks = sites_on(kb, wake_pats, wake_field)
         ctx.ob('2a throttle-anchors %s' % label, 'anchor', waiter_fn, 'one wait site and one wake site', len(ws) == 1 and len(ks) == 1, 'wait %s wake %s' % (ws, ks))
